@@ -12,7 +12,8 @@ from concurrent.futures import ThreadPoolExecutor
 
 ROOT = '/verif/seeded'
 EXTRA = {'C01-1': ['C03'], 'C19-3': ['C17'], 'C02-2': ['C03'],
-         'C03-3': ['C05'], 'C10-3': ['C01']}
+         'C03-3': ['C05'], 'C10-3': ['C01'], 'C01-w2-2': ['C12'],
+         'C20-w2-1': ['C09'], 'C09-w2-1': ['C08']}
 jobs = int(sys.argv[1]) if len(sys.argv) > 1 else 3
 only = sys.argv[2] if len(sys.argv) > 2 else ''
 
